@@ -503,6 +503,12 @@ pub fn plan(prop: &str, tier: &str) -> Option<Plan> {
                     s.push(e1(prop, "zst", H_GOOD, 0, "withcap", &fl, 0, 1, 0, prof, 45.0));
                     s.push(e2(prop, "zst", H_GOOD, "mut+shape2+caphuge", &fl, 1, prof, 45.0));
                     s.push(e1(prop, "tk", H_LOW, 0, "mut1+ch0+shape/cap+caphuge+fill", &fl, 20, 2, 1, prof, 45.0));
+                    for c0 in [0usize, 3, 5] {
+                        // (the initial capacity shifts which boundary argument meets which resize)
+                        let mut x = sweep(prop, "u32", H_GOOD, 200_000, &["c10", "cheap"], &[("stride", "0"), ("reserve_at_resize", "1"), ("audit_every", "100000")], prof, 45.0);
+                        x.cap0 = c0;
+                        s.push(x);
+                    }
                 }
                 bounds = json!({"E1": "every reserve/try_reserve n in [0,2cap+4], every shrink_to m in [0,cap+2], usize/isize windows, at every state with <=1 deviation up to N=33 and on the growth path to 130; with_capacity(n) for n<=1100 and 2^k+-1 to 2^20", "profiles": "chk and rel"});
             } else {
@@ -518,6 +524,11 @@ pub fn plan(prop: &str, tier: &str) -> Option<Plan> {
                     s.push(e2(prop, "zst", H_GOOD, "mut+shape2+caphuge", &fl, 1, prof, 100.0));
                     s.push(e1(prop, "tk", H_LOW, 0, "mut1+ch0+shape/capall+caphuge+fill", &fl, 33, 2, 1, prof, 1200.0));
                     s.push(e2(prop, "u32", H_GOOD, "mut1+ch0+shape2+caphuge", &fl, 4, prof, 1200.0));
+                    for c0 in [0usize, 1, 2, 3, 4, 5, 6, 7] {
+                        let mut x = sweep(prop, "u32", H_GOOD, 2_000_000, &["c10", "cheap"], &[("stride", if c0 % 2 == 0 { "0" } else { "3" }), ("reserve_at_resize", "1"), ("audit_every", "500000")], prof, 600.0);
+                        x.cap0 = c0;
+                        s.push(x);
+                    }
                 }
                 bounds = json!({"E1": "all capacity arguments at every state with <=1 deviation up to N=64, on the growth path to 600 (all n) and 4096 (boundary menu)", "profiles": "chk and rel"});
             }
